@@ -152,6 +152,9 @@ class SymFactory:
         if not self.ctx.feasible():
             raise PathEnd()
 
+    def lemma(self, label, cond):
+        return self.ctx.lemma(label, cond)
+
     # objects
     def new(self, cls, *args, **kwargs):
         """construct through the real constructor (interpreted); a raising constructor means the
@@ -282,6 +285,9 @@ class NativeFactory:
 
     def assume_feasible(self):
         pass
+
+    def lemma(self, label, cond):
+        return None
 
     def new(self, cls, *args, **kwargs):
         return cls(*args, **kwargs)
